@@ -100,8 +100,13 @@ def run_config(chk, facts):
                       "Applied, or the non-empty edge of accumulated_info.is_empty() and then the flip loop")
     an = chk.anchor("C19-b", APPLY_NEXT, facts.body(APPLY_NEXT))
     # (1) accumulated vector: pushes only under a Pending downcast of the looked-up status
-    acc = an.local_by_name("accumulated_info")
-    chk.anchor("C19-b", "local accumulated_info", acc)
+    # found by role, not by name: the local Vec that is pushed onto and whose is_empty() is tested
+    pushed = {an.root_local(t.args[0]) for bb, t in an.calls() if t.callee.endswith("Vec::<T, A>::push") and t.args}
+    tested = {an.root_local(t.args[0]) for bb, t in an.calls() if t.callee.endswith("::is_empty") and t.args}
+    acc = sorted(l for l in pushed & tested if l is not None and l > an.argc and an.local_ty(l).startswith("alloc::vec::Vec<"))
+    if len(acc) != 1:
+        acc = an.local_by_name("accumulated_info")
+    chk.anchor("C19-b", "the local Vec of collected patches (pushed onto, tested with is_empty())", acc)
     acc = acc[0]
     pushes = [(bb, t) for bb, t in an.calls() if t.callee.endswith("::push") and t.args and an.root_local(t.args[0]) == acc]
     chk.floor("C19-b", "pushes onto accumulated_info", len(pushes), 1)
@@ -221,9 +226,16 @@ def run_config(chk, facts):
            detail="no path from the non-empty test to an Ok exit stores UriStatus::Applied: collected patches would stay Pending")
     chk.floor("C19-b", "non-Err exits explored", sum(1 for _, s, rv in ex.exits if ret_class(an, rv) != "err"), 2)
     # (2) the flip loop iterates the same source as the collection loop
-    iters = [t for bb, t in an.calls() if t.callee.endswith("::non_invalidating_patch_iter")]
-    chk.ob("C19-b", f"collection loop and flip loop both iterate non_invalidating_patch_iter() ({len(iters)} calls)",
-           len(iters) == 2, key=f"{an.path}|same-iter", file=an.file, line=an.lo, fn=an.path,
+    # the source is "the patch_group method that returns an iterator" (today non_invalidating_patch_iter)
+    by_callee = {}
+    for bb, t in an.calls():
+        if t.callee.startswith("incremental_font_transfer::patch_group::") and t.dest and not t.dest[1] and \
+                ("core::iter::" in an.local_ty(t.dest[0]) or an.local_ty(t.dest[0]).startswith("impl ")):
+            by_callee.setdefault(t.callee, []).append(t)
+    iters = max(by_callee.values(), key=len) if by_callee else []
+    chk.ob("C19-b", f"collection loop and flip loop both iterate {iters[0].callee.split('::')[-1] if iters else '?'}() ({len(iters)} calls, "
+                    f"{len(by_callee)} iterator source(s))",
+           len(iters) == 2 and len(by_callee) == 1, key=f"{an.path}|same-iter", file=an.file, line=an.lo, fn=an.path,
            detail="the statuses flipped after success must be those of the patches that were collected")
     chk.sample({"progress exits": [(bb, list(s), ret_class(an, rv)) for bb, s, rv in ex.exits]})
 
